@@ -71,7 +71,7 @@ Init ==
   /\ obs = NoObs
 
 Step(p, in) ==
-  LET res == Apply(st[p], in) IN
+  \E res \in {Apply(st[p], in)} :      \* evaluated once
   /\ st' = [st EXCEPT ![p] = res[1]]
   /\ net' = net \cup BroadcastsOf(res[2])
   /\ dec' = dec \cup CommitsOf(p, res[2])
